@@ -321,7 +321,7 @@ func ruleC02_4(c *Ctx, r *Rep) {
 		st := fieldStores(fn, modPath+"/actions", "SubscriptionMessageDelivery")
 		checkDeps(c, r, "C02.4", "applyResults", fn, st, []depSpec{
 			{"ID", []string{"field:ID"}, []string{"field:MessageID", "field:Message"}},
-			{"MessageID", []string{"field:Message"}, contentForbid()},
+			{"MessageID", []string{"field:Message", "field:MessageID"}, contentForbid("field:MessageID")},
 			{"Payload", []string{"field:Payload"}, contentForbid("field:Payload")},
 			{"Attributes", []string{"field:Attributes"}, contentForbid("field:Attributes")},
 			{"OrderKey", []string{"field:OrderKey"}, contentForbid("field:OrderKey")},
